@@ -1045,6 +1045,9 @@ pub(crate) struct SubRenderer<D: TextDecorator> {
     lines: LinkedList<RenderLine<Vec<D::Annotation>>>,
     /// FragmentStart items which have not yet been output.
     pending_frags: Vec<TaggedLineElement<Vec<D::Annotation>>>,
+    /// Fragment markers recorded after the end of a block, which belong
+    /// to whatever is rendered after the (not yet flushed) block.
+    block_end_frags: Vec<TaggedLineElement<Vec<D::Annotation>>>,
     /// True at the end of a block, meaning we should add
     /// a blank line if any other text is added.
     at_block_end: bool,
@@ -1191,6 +1194,7 @@ impl<D: TextDecorator> SubRenderer<D> {
             pre_depth: 0,
             text_filter_stack: Vec::new(),
             pending_frags: Default::default(),
+            block_end_frags: Default::default(),
         }
     }
 
@@ -1235,6 +1239,9 @@ impl<D: TextDecorator> SubRenderer<D> {
 
             self.pending_frags.extend(frags);
         }
+        // Now that the finished block is out, markers recorded after it
+        // wait for the next line.
+        self.pending_frags.append(&mut self.block_end_frags);
         Ok(())
     }
 
@@ -1385,7 +1392,12 @@ impl<D: TextDecorator> Renderer for SubRenderer<D> {
         html_trace!("start_block({})", self.width);
         self.flush_all()?;
         if self.lines.iter().any(|l| l.has_content()) {
+            // Markers waiting for the next text belong to the block being
+            // started, not to the blank line separating it from the
+            // previous one.
+            let frags = std::mem::take(&mut self.pending_frags);
             self.add_empty_line()?;
+            self.pending_frags = frags;
         }
         html_trace_quiet!("start_block; at_block_end <- false");
         self.at_block_end = false;
@@ -1822,11 +1834,19 @@ impl<D: TextDecorator> Renderer for SubRenderer<D> {
         self.decorator.ordered_item_prefix(i)
     }
 
-    fn record_frag_start(&mut self, fragname: &str) {
+    fn record_frag_start(&mut self, fragname: &str) -> Result<()> {
         use self::TaggedLineElement::FragmentStart;
 
-        get_wrapping_or_insert::<D>(&mut self.wrapping, &self.options, self.width)
-            .add_element(FragmentStart(fragname.to_string()));
+        if self.at_block_end {
+            // The previous block is finished, so the marker belongs to
+            // whatever is rendered next rather than to its last line.
+            self.block_end_frags
+                .push(FragmentStart(fragname.to_string()));
+        } else {
+            get_wrapping_or_insert::<D>(&mut self.wrapping, &self.options, self.width)
+                .add_element(FragmentStart(fragname.to_string()));
+        }
+        Ok(())
     }
 
     #[allow(unused)]
